@@ -306,6 +306,7 @@ int hx_run(const hx_script *s, hx_obs *o) {
     htp_connp_destroy_all(c);
     hx_in_lib = 0;
     hx_connp = NULL;
+    if (s->cfg.extract_files) { int left = hx_extract_leftovers(); if (left && !s->nfault) hx_verdict_add("C01", "file_left", "%d extracted file(s) still on disk after htp_connp_destroy_all", left); }
 done:
     watchdog_disarm();
     o->allocs_in_lib = (int) hx_alloc_seq; o->fault_fired = hx_fault_fired;
